@@ -1166,6 +1166,13 @@ def np_isclose(a, b, rtol=1e-05, atol=1e-08, equal_nan=False):
     if _conc(a) and _conc(b):
         return _delegate('isclose', a, b, rtol=rtol, atol=atol, equal_nan=equal_nan)
     # NumPy: finite pairs by the tolerance formula, anything involving an infinity by equality (NaN never close)
+    scalar = not isinstance(a, (_np.ndarray, list, tuple)) and not isinstance(b, (_np.ndarray, list, tuple))
+    if scalar:
+        # symbolic scalars: the same formula on 1-element arrays, result handed back as a scalar
+        r = np_isclose(np_array([a]), np_array([b]), rtol=rtol, atol=atol, equal_nan=equal_nan)
+        return _raw(_as_sarr(r)).reshape(-1)[0]
+    a = _as_sarr(a) if isinstance(a, (core.SVal, list, tuple)) else a
+    b = _as_sarr(b) if isinstance(b, (core.SVal, list, tuple)) else b
     fin = _np.logical_and(_np.isfinite(a), _np.isfinite(b))
     tol = _np.less_equal(_np.absolute(_np.subtract(a, b)), _np.add(atol, _np.multiply(rtol, _np.absolute(b))))
     same = _np.equal(a, b)
